@@ -129,6 +129,9 @@ func udp(s string) *net.UDPAddr {
 	if err != nil {
 		panic(err)
 	}
+	if ip4 := a.IP.To4(); ip4 != nil {
+		a.IP = ip4 // the form compact node lists decode to; the traversal tells addresses apart by their text
+	}
 	return a
 }
 
@@ -150,9 +153,9 @@ const (
 )
 
 var (
-	expectBound = 5 * time.Second       // how long an event the code owes may take before it is a hang
-	leakBound   = 2 * time.Second       // >= 2x the longest time-out configured in any scenario (3 x 1 ms)
-	graceRet    = 5 * time.Millisecond  // how long a premature return is given to show itself
+	expectBound = 5 * time.Second      // how long an event the code owes may take before it is a hang
+	leakBound   = 2 * time.Second      // >= 2x the longest time-out configured in any scenario (3 x 1 ms)
+	graceRet    = 5 * time.Millisecond // how long a premature return is given to show itself
 )
 
 func closeServer(srv *dht.Server, conn *lifeConn) {
